@@ -164,7 +164,7 @@ def run(c, tier, what):
         if refok and n <= (16 if tier == "quick" else 22) and m <= 45 and all(isinstance(x, int) for cy in cycles for x in cy):
             refq.append(i)
         if i in model_out and canon_alg(io[i]) != model_out[i].strip():
-            bw = O.judge_basis(n, es, cycles) or (O.judge_weight(n, es, cycles, ret) if isinstance(ret, int) else "non-integer weight")
+            bw = O.judge_basis(n, es, cycles) if what == "basis" else (O.judge_weight(n, es, cycles, ret) if isinstance(ret, int) else "non-integer weight")
             if bw:
                 report("corr-judge", i, "mcb_sva_signed: " + bw)
             else:
